@@ -360,6 +360,24 @@ fn power_iteration(
         .collect();
     normalize(&mut v);
 
+    // The fixed start vector can be orthogonal to every row (two equal columns meet
+    // [-x, x]): A*v is then zero and the iteration would report sigma = 0 for a non-zero
+    // matrix. The largest row is never orthogonal to the row space, so start from it.
+    let image_norm = (0..a.rows)
+        .map(|i| (0..a.cols).map(|j| a.get(i, j) * v[j]).sum::<f32>().powi(2))
+        .sum::<f32>()
+        .sqrt();
+    if image_norm <= f32::EPSILON * a.frobenius_norm() {
+        let row_norm =
+            |i: usize| (0..a.cols).map(|j| a.get(i, j).powi(2)).sum::<f32>();
+        if let Some(best) = (0..a.rows).max_by(|&p, &q| row_norm(p).total_cmp(&row_norm(q))) {
+            if row_norm(best) > 0.0 {
+                v = (0..a.cols).map(|j| a.get(best, j)).collect();
+                normalize(&mut v);
+            }
+        }
+    }
+
     let mut u = vec![0.0f32; a.rows];
     let mut sigma = 0.0f32;
 
